@@ -84,6 +84,12 @@ impl DodecahedronProjection {
 
     /// Unprojects face coordinates to spherical coordinates using dodecahedron projection
     pub fn inverse(&mut self, face: Face, origin_id: OriginId) -> Result<Spherical, String> {
+        // Validate the origin before touching the memo: slots 120..239 hold the reflected
+        // triangles of origins 0..11, which an out-of-range origin (12..23) would alias
+        if (origin_id as usize) >= get_origins().len() {
+            return Err("Invalid origin ID".to_string());
+        }
+
         let polar = to_polar(face);
         let face_triangle_index = self.get_face_triangle_index(polar)?;
 
